@@ -68,6 +68,8 @@ EXPECTED_PROBES = {
     'C04': ['alf_names', 'colvec', 'no_clusters_file', 'wmi_created', 'second_load', 'nonmonotonic',
             'sparse_templates', 'raw_extra_channels', 'poisoned', 'listing:shuffled', 'nan_template',
             'inf_of_both_signs_in_one_file', 'alf_label_in_names', 'raw_cbin', 'raw_npy',
+            'loaded_under_second_listing_order', 'both_names_of_a_family_present',
+            'unreadable_attribute_file', 'traces_read', 'params_name_a_missing_raw_file',
             'alf_times_without_samples'],
     'C05': ['sparse', 'dense', 'neighbourhood_bites', 'multi_shank', 'threshold_bites',
             'explicit_channels', 'minus_one_column', 'signal_free_column', 'all_zero_template',
@@ -78,7 +80,8 @@ EXPECTED_PROBES = {
             'single_spike_cluster', 'tie_in_spike_counts'],
     'C09': ['empty_highest_id', 'curated', 'depths', 'zero_positive_part', 'batch_boundary_size'],
     'C10': ['torn_metadata', 'torn_store', 'foreign_malformed', 'repeated_save', 'dirty_reload',
-            'store_checked', 'string_with_delimiter', 'none_dropped'],
+            'store_checked', 'string_with_delimiter', 'none_dropped',
+            'legacy_csv_names_a_saved_field'],
     'C03': ['torn_store', 'store_route', 'raw_fallback_route', 'non_stored_spike'],
 }
 
@@ -135,8 +138,12 @@ def gen(rng, prop, tier):
                 r = rng.random()
                 if r < 0.35 and p['raw']:
                     ops.append({'op': 'q_traces', 'seed': rng.randint(0, 10 ** 6)})
-                elif r < 0.55:
+                elif r < 0.5:
                     ops.append({'op': 'load_again'})
+                elif r < 0.6:
+                    ops.append({'op': 'load_other_listing',
+                                'listing': rng.choice(['sorted', 'reversed', 'shuffled',
+                                                       'rotated'])})
                 elif r < 0.75:
                     ops += [{'op': 'close'}, {'op': 'reload'}]
                 elif r < 0.9:
@@ -286,6 +293,15 @@ def gen(rng, prop, tier):
                         ops.append({'op': 'tear', 'target': 'metadata',
                                     'field': ops[-1]['field'],
                                     'frac': rng.choice([0.0, 0.2, 0.5, 0.9])})
+                elif r < 0.48 and not any(o.get('kind') == 'collide_csv' for o in ops):
+                    # a legacy CSV with a column named like a field phylib saves: CSV files are
+                    # read before TSV files, so the saved cluster_<field>.tsv must win whatever
+                    # the listing order
+                    f = rng.choice(fields)
+                    rows = [{'cluster_id': c, f: _gen_values(rng, [0])['0'] or 'legacy'}
+                            for c in rng.sample(range(0, nt + 6), rng.randint(1, 5))]
+                    ops.append({'op': 'foreign', 'kind': 'collide_csv', 'ext': '.csv',
+                                'name': 'cluster_groups_legacy', 'fields': [f], 'rows': rows})
                 elif r < 0.58:
                     kind = rng.choice(['valid', 'valid', 'empty', 'header_only', 'garbage',
                                        'ragged', 'no_cluster_id', 'cluster_info'])
@@ -337,6 +353,16 @@ def simplify(plan):
         p = copy.deepcopy(plan)
         p['cfg']['alf_label'] = ''
         yield p
+    for key in ('dual', 'unreadable_attrs'):
+        if cfg.get(key):
+            p = copy.deepcopy(plan)
+            p['cfg'][key] = []
+            yield p
+            if len(cfg[key]) > 1:
+                for i in range(len(cfg[key])):
+                    p = copy.deepcopy(plan)
+                    del p['cfg'][key][i]
+                    yield p
     if cfg.get('raw') and cfg['raw'].get('format', 'flat') != 'flat':
         p = copy.deepcopy(plan)
         p['cfg']['raw']['format'] = 'flat'
@@ -556,16 +582,25 @@ class DatasetWorld(object):
         def eq(name, got, exp, exact=True):
             ok = got is not None and (_aeq(got, exp) if exact else ref.close(got, exp, 1e-12))
             ctx.check(ok, 'attr-' + name, lambda: {'got': _desc(got), 'expected': _desc(exp)})
+        dual = set(cfg.get('dual') or [])   # both names present: which wins is not asserted
         eq('spike_samples', m.spike_samples, g.samples)
         eq('spike_times', m.spike_times, g.samples / g.sr, exact=False)
-        eq('spike_templates', m.spike_templates, g.stemplates)
-        eq('spike_clusters', m.spike_clusters, self.current_clusters())
-        if self.amps_present:
+        if 'stemplates' not in dual:
+            eq('spike_templates', m.spike_templates, g.stemplates)
+            eq('spike_clusters', m.spike_clusters, self.current_clusters())
+        if 'amps' in dual:
+            pass
+        elif self.amps_present:
             eq('amplitudes', m.amplitudes, ref.scrub(g.amps))
         else:
             ctx.check(m.amplitudes is None, 'attr-amplitudes-default')
-        eq('channel_mapping', m.channel_mapping, g.chmap)
-        eq('channel_positions', m.channel_positions, g.pos)
+        if 'chmap' not in dual:
+            eq('channel_mapping', m.channel_mapping, g.chmap)
+        if 'chpos' not in dual:
+            eq('channel_positions', m.channel_positions, g.pos)
+        if cfg.get('unreadable_attrs'):
+            ctx.probe('unreadable_attribute_file')
+            ctx.fault('unreadable_attribute_file')
         eq('channel_shanks', m.channel_shanks, g.shanks if self.shanks_present else np.zeros(nc))
         eq('channel_probes', m.channel_probes, g.probes if self.probes_present else np.zeros(nc))
         ctx.check(m.n_spikes == ns and m.n_channels == nc and m.n_templates == nt
@@ -605,6 +640,9 @@ class DatasetWorld(object):
                 ctx.probe('raw_extra_channels')
         else:
             ctx.check(m.traces is None, 'attr-traces-default')
+            if cfg.get('raw_missing'):
+                ctx.probe('params_name_a_missing_raw_file')
+                ctx.fault('raw_file_absent')
         if any(v == 'alf' for v in cfg['names'].values()):
             ctx.probe('alf_names')
             if cfg.get('alf_label'):
@@ -626,19 +664,23 @@ class DatasetWorld(object):
         if self.A is None or m.traces is None:
             return
         rs = np.random.RandomState(seed)
-        n = self.A.shape[0]
+        A = self.A
+        if 'chmap' in (self.cfg.get('dual') or []):
+            # two channel-map files: the permutation is by whichever one the loader chose
+            A = self.g.raw[:, np.asarray(m.channel_mapping).astype(np.int64)]
+        n = A.shape[0]
         a = int(rs.randint(0, n))
         b = int(rs.randint(a + 1, n + 1))
         kind = rs.randint(0, 3)
         if kind == 2 and self.cfg['raw'].get('format') == 'cbin':
             kind = 0   # the compressed decoder does not offer index lists (C01's stated exception)
         if kind == 0:
-            item, exp = slice(a, b), self.A[a:b]
+            item, exp = slice(a, b), A[a:b]
         elif kind == 1:
-            item, exp = a, self.A[a:a + 1]
+            item, exp = a, A[a:a + 1]
         else:
             idx = np.unique(rs.randint(0, n, size=5))
-            item, exp = idx, self.A[idx]
+            item, exp = idx, A[idx]
         got = ctx.real('traces[]', lambda: m.traces[item], owners=('C04',))
         ctx.probe('traces_read')
         ctx.check(_aeq(got, exp) and got.dtype == exp.dtype, 'attr-traces-rows',
@@ -657,6 +699,39 @@ class DatasetWorld(object):
         ctx.check(not created and not deleted and not modified, 'second-load-has-side-effects',
                   lambda: {'created': created, 'deleted': deleted, 'modified': modified})
         m2.close()
+
+    def load_other_listing(self, strategy):
+        """Metamorphic check owned by the listing seam: what is loaded is a function of the
+        directory contents, not of the order in which the file system enumerates them."""
+        from phylib.io.model import load_model
+        ctx, m, cfg = self.ctx, self.model, self.cfg
+        with seams.installed(listing=strategy, seed=cfg['seed'] + 1):
+            m2 = ctx.real('load', load_model, self.params, owners=LOAD_OWNERS)
+        ctx.op('load_other_listing', changes_state=False)
+        ctx.probe('loaded_under_second_listing_order')
+        if cfg.get('dual'):
+            ctx.probe('both_names_of_a_family_present')
+        try:
+            for name in ('spike_samples', 'spike_templates', 'spike_clusters', 'amplitudes',
+                         'channel_mapping', 'channel_positions', 'channel_shanks',
+                         'channel_probes', 'wm', 'similar_templates'):
+                a, b = getattr(m, name), getattr(m2, name)
+                same = (a is None and b is None) or (a is not None and b is not None
+                                                     and _aeq(a, b))
+                ctx.check(same, 'load-depends-on-listing-order',
+                          lambda: {'attribute': name, 'first': _desc(a), 'second': _desc(b),
+                                   'listings': [cfg.get('listing'), strategy]})
+            ctx.check(sorted(m.spike_attributes.keys()) == sorted(m2.spike_attributes.keys())
+                      and all(_aeq(m.spike_attributes[k], m2.spike_attributes[k])
+                              for k in m.spike_attributes),
+                      'load-depends-on-listing-order',
+                      lambda: {'attribute': 'spike_attributes',
+                               'first': sorted(m.spike_attributes.keys()),
+                               'second': sorted(m2.spike_attributes.keys())})
+            ctx.check(_aeq(np.asarray(m.sparse_templates.data), np.asarray(m2.sparse_templates.data)),
+                      'load-depends-on-listing-order', lambda: {'attribute': 'templates'})
+        finally:
+            m2.close()
 
     def remove_optional(self, what):
         """Fault: an optional file disappears between two loads."""
@@ -1156,7 +1231,8 @@ class DatasetWorld(object):
         fields = op['fields']
         buf = io.StringIO()
         wr = csv.writer(buf, delimiter=delim, lineterminator='\n')
-        if kind in ('valid', 'cluster_info', 'header_only', 'ragged', 'no_cluster_id'):
+        if kind in ('valid', 'collide_csv', 'cluster_info', 'header_only', 'ragged',
+                    'no_cluster_id'):
             head = (['cluster_id'] if kind != 'no_cluster_id' else ['id']) + fields
             wr.writerow(head)
             if kind != 'header_only':
@@ -1172,7 +1248,9 @@ class DatasetWorld(object):
             path.write_bytes(bytes([0xff, 0xfe, 0x00, 0x9f, 0x0a, 0x22, 0x09, 0xc3, 0x28, 0x0a]) * 3)
         ctx.op('foreign')
         ctx.fault('foreign_metadata:' + kind)
-        if kind == 'valid':
+        if kind == 'collide_csv':
+            ctx.probe('legacy_csv_names_a_saved_field')
+        if kind in ('valid', 'collide_csv'):
             for f in fields:
                 mp = {}
                 for row in op['rows']:
@@ -1341,7 +1419,14 @@ class DatasetWorld(object):
                                                                  1e-12),
                   'reloaded-spike-times-changed')
         md = m.metadata
-        for field, mp in list(self.meta.items()) + list(self.foreign_fields.items()):
+        expected = dict(self.foreign_fields)
+        for field, mp in self.meta.items():
+            if field in self.foreign_fields and not mp:
+                # an empty saved mapping next to another file defining the field: left open
+                expected.pop(field, None)
+                continue
+            expected[field] = mp      # the saved cluster_<field>.tsv wins over other files
+        for field, mp in expected.items():
             if field in self.torn_fields:
                 continue
             got = md.get(field, {})
@@ -1349,7 +1434,9 @@ class DatasetWorld(object):
                 type(got[k]) is type(mp[k]) and got[k] == mp[k] for k in mp))
             ctx.check(same, 'reloaded-metadata-field',
                       lambda: {'field': field, 'got': sorted(got.items())[:8],
-                               'expected': sorted(mp.items())[:8]})
+                               'expected': sorted(mp.items())[:8],
+                               'also_defined_by_legacy_csv': field in self.foreign_fields
+                               and field in self.meta})
         for f in self.forbidden_fields:
             ctx.check(f not in md, 'cluster-info-file-not-ignored', lambda: {'field': f})
         self.check_store()
@@ -1428,6 +1515,8 @@ def run_ops(plan, ctx, cfg):
             w.q_traces(op['seed'])
         elif k == 'load_again':
             w.load_again()
+        elif k == 'load_other_listing':
+            w.load_other_listing(op['listing'])
         elif k == 'q_template':
             w.q_template(op)
         elif k == 'q_cluster_channels':
